@@ -56,7 +56,7 @@ CLAIM = {
     ),
     "note": (
         "Trusted: Lean 4.33 kernel (axioms audited). The call-plan model and Python's binding algorithm are "
-        "hand-written and tied by correspondence (exhaustive over kind layouts of <= 3 parameters plus sampled 4-5, "
+        "hand-written and tied by correspondence (exhaustive over kind layouts of <= 4 parameters plus sampled 3-6, "
         "CPython's own binding of the same call, and the six real model kinds via adaptix's introspection). For "
         "defaults the translator's reading of the AST is trusted, Python's repr of int/str/bytes/bytearray/finite "
         "float and Python's parser are not modelled (texts are symbolic; the harness substitutes the real repr and "
@@ -71,7 +71,7 @@ EXTRACT = [extract_c08_literal]
 RULE = (
     "defaults: a zoo of ~120 fixed values (0/1/True/False/None, Decimal/Fraction/complex/IntEnum/IntFlag look-alikes, "
     "nan/inf/-0.0, (1,), nested containers, slices, ranges, bytes, bytearray, sets, builtins) plus random nested values "
-    "of depth <= 4; call plans: every kind layout of <= 3 parameters (quick; <= 4 thorough) x required/default/packed "
+    "of depth <= 4; call plans: every kind layout of <= 4 parameters (quick; <= 5 thorough) x required/default/packed "
     "x skipped/absent/present per optional parameter, plus random layouts of 4-6 parameters; a case is non-trivial when "
     "a literal is rendered for a container or look-alike, or when at least one optional parameter is left out of the call"
 )
@@ -1611,9 +1611,9 @@ def run(ctx: Ctx):
     suite_e2e_defaults(ctx, drv, [("value", rand_value(rng, 3)) for _ in range(ctx.budget(150, 4000))], ctx.budget(3, 5))
     # constructor call (the public model kinds first, so that a reported failing input is a public-API one)
     suite_kinds(ctx, drv, ctx.budget(420, 8000))
-    max_n = 4 if thorough else 3
+    max_n = 5 if thorough else 4
     for n in range(1, max_n + 1):
-        run_plan_cases(ctx, drv, lab, list(gen_specs_exhaustive(n, PLAN_OPTS)), rng, max_skip_sets=8 if n <= 3 else 4,
+        run_plan_cases(ctx, drv, lab, list(gen_specs_exhaustive(n, PLAN_OPTS)), rng, max_skip_sets=8 if n <= 4 else 3,
                        with_kwargs_every=3)
     run_plan_cases(ctx, drv, lab, list(gen_specs_exhaustive(2, FIELD_OPTS)), rng, max_skip_sets=4, with_kwargs_every=2)
     run_plan_cases(ctx, drv, lab, [rand_spec(rng, rng.randint(3, 6)) for _ in range(ctx.budget(500, 8000))], rng,
